@@ -167,19 +167,57 @@ DIAG_PRINTED = [False]
 
 
 def resource_diag():
-    """What the machine looks like when it refuses processes / threads (printed once per check, for the logs)."""
-    out = []
-    def sh(cmd):
+    """What the machine looks like when it refuses processes / threads (printed once per check, for the logs). Reads /proc
+    and the cgroup files directly: when the machine refuses processes a shell cannot be started either."""
+    import glob, resource as _res
+    def rd(path):
         try:
-            return subprocess.run(cmd, shell=True, stdout=subprocess.PIPE, stderr=subprocess.STDOUT, text=True, timeout=20).stdout.strip()
-        except Exception as e:  # noqa
-            return "(%s: %r)" % (cmd, e)
-    out.append("threads=%s procs=%s load=%s" % (sh("ls /proc/*/task 2>/dev/null | grep -c '^[0-9]'"), sh("ls -d /proc/[0-9]* | wc -l"), sh("cat /proc/loadavg")))
-    out.append("mem: " + sh("grep -E 'MemTotal|MemAvailable|Committed_AS|CommitLimit' /proc/meminfo | tr -s ' ' | tr '\n' ';'"))
-    out.append("limits: nproc=%s pid_max=%s threads-max=%s cgroup pids.max=%s pids.current=%s overcommit=%s" % (
-        sh("bash -c 'ulimit -u'"), sh("cat /proc/sys/kernel/pid_max"), sh("cat /proc/sys/kernel/threads-max"),
-        sh("cat /sys/fs/cgroup/pids.max 2>/dev/null || cat /sys/fs/cgroup/pids/pids.max 2>/dev/null"), sh("cat /sys/fs/cgroup/pids.current 2>/dev/null"), sh("cat /proc/sys/vm/overcommit_memory")))
-    out.append("most frequent commands: " + sh("for d in /proc/[0-9]*; do n=$(ls $d/task 2>/dev/null | wc -l); c=$(tr '\\0' ' ' < $d/cmdline 2>/dev/null | cut -c1-60); echo \"$n $c\"; done | sort -k2 | awk '{n[$2\" \"$3\" \"$4]+=$1; p[$2\" \"$3\" \"$4]++} END {for (k in n) print n[k]\" threads / \"p[k]\" procs: \"k}' | sort -rn | head -12 | tr '\n' '|'"))
+            with open(path) as f:
+                return f.read().strip()
+        except OSError as e:
+            return "(%s)" % e.strerror
+    out = []
+    procs, threads, byname = 0, 0, {}
+    for d in glob.glob("/proc/[0-9]*"):
+        try:
+            with open(d + "/status") as f:
+                st = f.read()
+        except OSError:
+            continue
+        procs += 1
+        name, n = "?", 1
+        for line in st.splitlines():
+            if line.startswith("Name:"):
+                name = line.split(None, 1)[1]
+            elif line.startswith("Threads:"):
+                n = int(line.split()[1])
+        threads += n
+        c = byname.setdefault(name, [0, 0])
+        c[0] += n
+        c[1] += 1
+    out.append("threads=%d procs=%d load=%s" % (threads, procs, rd("/proc/loadavg")))
+    mem = [l for l in rd("/proc/meminfo").splitlines() if l.split(":")[0] in ("MemTotal", "MemAvailable", "Committed_AS", "CommitLimit")]
+    out.append("mem: " + "; ".join(" ".join(l.split()) for l in mem))
+    try:
+        nproc = _res.getrlimit(_res.RLIMIT_NPROC)
+    except Exception as e:  # noqa
+        nproc = repr(e)
+    cg = []
+    for pat in ("/sys/fs/cgroup/pids.max", "/sys/fs/cgroup/pids.current", "/sys/fs/cgroup/pids/pids.max", "/sys/fs/cgroup/pids/pids.current"):
+        if os.path.exists(pat):
+            cg.append("%s=%s" % (pat, rd(pat)))
+    own = rd("/proc/self/cgroup").replace("\n", " | ")
+    for line in rd("/proc/self/cgroup").splitlines():
+        rel = line.split(":", 2)[-1]
+        for base in ("/sys/fs/cgroup", "/sys/fs/cgroup/pids"):
+            for fn in ("pids.max", "pids.current"):
+                path = base + rel.rstrip("/") + "/" + fn
+                if os.path.exists(path) and ("%s=" % path) not in " ".join(cg):
+                    cg.append("%s=%s" % (path, rd(path)))
+    out.append("limits: RLIMIT_NPROC=%s pid_max=%s threads-max=%s overcommit=%s cgroup(self)=%s %s" % (
+        nproc, rd("/proc/sys/kernel/pid_max"), rd("/proc/sys/kernel/threads-max"), rd("/proc/sys/vm/overcommit_memory"), own, " ".join(cg) or "(no pids controller files)"))
+    top = sorted(byname.items(), key=lambda kv: -kv[1][0])[:12]
+    out.append("most frequent commands: " + " | ".join("%d threads / %d procs: %s" % (v[0], v[1], k) for k, v in top))
     return "\n".join(out)
 
 
